@@ -159,7 +159,7 @@ def check_session_rules(repo, rep, tier="quick"):
     rep.rule("C02-R7", "same sessions: every minute of every symbol is fed to the matcher exactly once, in order, and with several symbols "
                        "minute-major - every symbol's minute m before any symbol's minute m+1 (an order that a hook of symbol A creates "
                        "for symbol B at minute m may only be matched against B's candles from m on)")
-    S.check_cover(repo, rep, "C02-R7", cfgs=S.for_tier(tier))
+    S.check_cover(repo, rep, "C02-R7", cfgs=S.for_tier(tier), clock=True)
 
 
 # ------------------------------------------------------------------ matching loop (shared exhaustive runs)
